@@ -1,3 +1,4 @@
+import Proofs.EcdsaInstLegacy
 import Proofs.EcdsaInstNamed
 import Proofs.EcdsaInstToy
 import Proofs.EcdsaInstCurve
@@ -195,5 +196,31 @@ theorem sign_eq_standard_named (row : Gen.CurveRow) (hrow : row ∈ [Gen.curve_N
     fun d hd => (pubkey_eq_dG_on_curve _ C M.toMatches d).1 hd⟩
 
 end Named
+
+/-! ### user-built curves whose generator is a legacy affine `Point` (no `mul_add`)
+`Public_key.verifies` then computes `u1 * G + u2 * Q` with `Point.__mul__`, `PointJacobi.__mul__` and the mixed
+`__add__` / `__radd__` dispatch; `from_public_point` converts the key with `PointJacobi.from_affine`.  The interface is
+proved for this configuration too (Proofs/EcdsaInstLegacy.lean: `OnCurve.pointOpsCorrect_legacy`, point objects
+`OnCurve.ValidL` = INFINITY, `PointJacobi` or `Point` values of ⟨G⟩). -/
+section Legacy
+open GroupInterface
+variable {p : ℕ} [Fact p.Prime] {a b : ℤ}
+
+theorem sign_eq_standard_legacy (c : Affine.Crv) (C : Ctx p a b) (M : OnCurve.MatchesL c C) (d e k : ℤ)
+    (hk : 1 ≤ k ∧ k < c.n) :
+    ∃ x, OnCurve.xcOf (k • C.G) = some x ∧
+      sign (OnCurve.ops c) d e k =
+        (let r := x % c.n
+         let s := invZ c.n k * (e + r * d) % c.n
+         if r = 0 ∨ s = 0 then .error .rsZero else .ok (r, s)) :=
+  sign_eq_standard (OnCurve.pointOpsCorrect_legacy c C M) d e k hk
+
+theorem pubkey_eq_dG_legacy (c : Affine.Crv) (C : Ctx p a b) (M : OnCurve.MatchesL c C) (d : ℤ) (hd : 1 ≤ d ∧ d < c.n) :
+    ∃ A, fromSecretExponent (OnCurve.ops c) d = .ok A ∧ OnCurve.ValidL C A ∧ OnCurve.den C A = d • C.G :=
+  (pubkey_eq_dG (OnCurve.pointOpsCorrect_legacy c C M) d).1 hd
+
+example : ∃ C : Ctx 11 1 6, OnCurve.MatchesL OnCurve.toyCrvL C := OnCurve.toy_matchesL
+
+end Legacy
 
 end C03
